@@ -94,8 +94,8 @@ let () =
       | [ "chk"; d ] ->     (* oracle only: the specification for the graph accumulated so far (values incl. vertices) *)
         let d = z_of_string d in
         let dd = if cmp_z d (z_of_int (-1)) = 0 then z_of_int (List.length !g.gverts) else d in
-        emit (Printf.sprintf "- || %s || okhist=%s"
-                (spec_str (cplx_of (fun s -> match flag !g dd s with Some _ -> Some (fval_all !g s) | None -> None) (vlabels !g))) (bstr !okhist))
+        emit (Printf.sprintf "ok %s || %s || okhist=%s" (dump !st)
+                (if not !okhist then "-" else spec_str (cplx_of (fun s -> match flag !g dd s with Some _ -> Some (fval_all !g s) | None -> None) (vlabels !g))) (bstr !okhist))
       | ("ripsp" | "ripsm") :: d :: thr :: "|" :: rest ->
         let d = z_of_string d and thr = z_of_string thr in
         let (n, dist) =
